@@ -536,24 +536,37 @@ def Node.size : Node → Nat
   | .arr a => a.xs.length
   | .idx x => (x.children.map (·.es.length)).sum
 
+/-- the test of `sliceOf` -/
+def slicePred (c : UCmp) (start limit : Option IKey) (e : Entry) : Bool :=
+  (match start with | some s => icmp c e.key s != .lt | none => true) &&
+  (match limit with | some l => icmp c e.key l == .lt | none => true)
+
+/-- `imax` / `imin` of a table given by its entries (exact: the last / first key) -/
+def tableMax (t : List Entry) : IKey := (t.getLast?.map (·.key)).getD ⟨[], 0⟩
+def tableMin (t : List Entry) : IKey := (t.head?.map (·.key)).getD ⟨[], 0⟩
+
+/-- `tf.searchMax(icmp, Start)`: first table whose `imax ≥ Start` (0 without a start) -/
+def levelStart (c : UCmp) (tables : List (List Entry)) (start : Option IKey) : Nat :=
+  match start with
+  | some s => (tables.findIdx? fun t => icmp c (tableMax t) s != .lt).getD tables.length
+  | none => 0
+
+/-- `tf.searchMin(icmp, Limit)`: first table whose `imin ≥ Limit` (`Len()` without a limit) -/
+def levelLimit (c : UCmp) (tables : List (List Entry)) (limit : Option IKey) : Nat :=
+  match limit with
+  | some l => (tables.findIdx? fun t => icmp c (tableMin t) l != .lt).getD tables.length
+  | none => tables.length
+
 /-- `tFiles.newIndexIterator` + `tFilesArrayIndexer`: the tables of a level ≥ 1 (each given by its
-entries; `imin`/`imax` are the first/last key), cut to `tf[searchMax(Start) : searchMin(Limit)]`; only the
-first and the last remaining table get the slice (`Get`).  `none` = the Go code panics (slice bounds out
-of range: `searchMax(Start) > searchMin(Limit)`, an inverted range). -/
-def levelIter (c : UCmp) (tables : List (List Entry)) (start limit : Option IKey) : Option IndexedIter :=
-  let imax (t : List Entry) : IKey := (t.getLast?.map (·.key)).getD ⟨[], 0⟩
-  let imin (t : List Entry) : IKey := (t.head?.map (·.key)).getD ⟨[], 0⟩
-  let sliced := start.isSome || limit.isSome
-  let st : Nat := match start with
-    | some s => (tables.findIdx? fun t => icmp c (imax t) s != .lt).getD tables.length
-    | none => 0
-  let lim : Nat := match limit with
-    | some l => (tables.findIdx? fun t => icmp c (imin t) l != .lt).getD tables.length
-    | none => tables.length
-  if sliced && st > lim then none
-  else
-    let tf := if sliced then (tables.take lim).drop st else tables
-    some (IndexedIter.new (tf.mapIdx fun i t =>
-      ⟨imax t, if i = 0 ∨ i = tf.length - 1 then sliceOf c t start limit else t⟩))
+entries; `imin`/`imax` are the first/last key), cut to `tf[searchMax(Start) : searchMin(Limit)]` with the
+limit clamped to the start for an inverted range (`if limit < start { limit = start }`); only the first and
+the last remaining table get the slice (`tFilesArrayIndexer.Get`), the others are iterated unrestricted. -/
+def levelIter (c : UCmp) (tables : List (List Entry)) (start limit : Option IKey) : IndexedIter :=
+  let st := levelStart c tables start
+  let lim0 := levelLimit c tables limit
+  let lim := if lim0 < st then st else lim0
+  let tf := (tables.take lim).drop st
+  IndexedIter.new (tf.mapIdx fun i t =>
+    ⟨tableMax t, if i = 0 ∨ i = tf.length - 1 then sliceOf c t start limit else t⟩)
 
 end GoLevel
